@@ -18,7 +18,7 @@ PROPS = {
         "groups": ["G-split"],
         "oracle": True,
         "tie": "tables regenerated from source (translator, validated by execution on 1.25M rune values); "
-               "rule chain hand-modelled in Gem/Rules.lean and tied by G-split (exhaustive class strings + random)",
+               "rule chain regenerated as data (Gen/Rules.lean) and proved equal to the model's chain (C01_rule_chain); model also tied by G-split (exhaustive class strings + random)",
         "assumptions": ["UAX #29 rules transcribed by hand in Gem/Spec.lean (kept short; run against the repository's 602 official vectors by the oracle group)"],
     },
     "C02": {
